@@ -561,6 +561,24 @@ static void group_ols(vh_ctx *c)
   vh_max("max_OLS_vs_oracle_units", fwd / tol);
   if (!(fwd <= C_OLS * tol)) vh_fail(c, "OrdinaryLeastSquares|coefficients-vs-oracle", "max|beta - oracle| = %.3g > %.3g (rows=%zu cols=%zu kappa=%.3Lg)", fwd, C_OLS * tol, m, n, kappa);
   vh_obs("ols_judged", 1); if (!strncmp(tag, "sq-", 3) || !strncmp(tag, "stack-", 6)) vh_obs("ols_structured_family_designs_judged", 1);
+  /* the same matrix object, changed in place, fitted again (third seeded wave): a solver that remembers anything about the previous call by the
+     address and shape of its argument answers for the old content.  Column 0 is doubled and the response renewed: the solution is known exactly. */
+  if ((c->idx & 3) == 2 && n >= 1) {
+    dvector *coef2 = out_dvector(c, n); ldm *A2 = ldm_copy(A), *bo2; double fwd2 = 0;
+    for (i = 0; i < m; i++) { mx->data[i][0] *= 2.0; LM(A2, i, 0) = mx->data[i][0]; vy->data[i] = vy->data[i] * 0.5 + (double)(i % 3); LM(y, i, 0) = vy->data[i]; }
+    bo2 = or_lstsq(A2, y);
+    OrdinaryLeastSquares(mx, vy, coef2);
+    if (bo2 && coef2->size == n) {
+      ld bs2 = ldm_maxabs(bo2); ld yn2 = 0; for (i = 0; i < m; i++) yn2 += LM(y, i, 0) * LM(y, i, 0);
+      for (j = 0; j < n; j++) { double d = fabs(coef2->data[j] - (double)LM(bo2, j, 0)); if (!(d <= fwd2)) fwd2 = d; }
+      tol = (double)(4 * kappa * kappa) * (double)n * EPS * (double)(bs2 + sqrtl(yn2) / sv[0]);
+      vh_max("max_OLS_refit_in_place_units", fwd2 / tol);
+      if (!(fwd2 <= C_OLS * tol)) vh_fail(c, "OrdinaryLeastSquares|coefficients-vs-oracle|same-matrix-object-changed-in-place", "second fit of the same matrix object after its first column was doubled: max|beta - oracle| = %.3g > %.3g", fwd2, C_OLS * tol);
+      vh_obs("ols_refits_of_a_matrix_changed_in_place", 1);
+    }
+    if (bo2) ldm_free(bo2);
+    ldm_free(A2); DelDVector(&coef2);
+  }
   DelDVector(&coef);
 out:
   DelDVector(&vy); DelMatrix(&mx); DelMatrix(&before); ldm_free(A); ldm_free(y); ldm_free(bo); free(sv);
